@@ -1,3 +1,4 @@
+// Command wal: correspondence cases for the WAL reader (C09).
 package main
 
 import (
@@ -14,10 +15,10 @@ import (
 	"path/filepath"
 
 	"github.com/benbjohnson/litestream"
+	. "verifharness/hx"
 	_ "modernc.org/sqlite"
 )
 
-func init() { register("wal", cmdWal) }
 
 // ---- synthetic WAL construction (independent of litestream's code) ----------
 
@@ -356,8 +357,8 @@ type walObs struct {
 }
 
 func (o walObs) sx() Sx {
-	pairs := make(sxList, 0, len(o.m))
-	for _, k := range sortedKeysU32(o.m) {
+	pairs := make(SxList, 0, len(o.m))
+	for _, k := range SortedKeysU32(o.m) {
 		pairs = append(pairs, L(U(uint64(k)), I(o.m[k])))
 	}
 	return L(I(int64(o.status)), pairs, I(o.end), U(uint64(o.commit)), B(o.limited))
@@ -373,7 +374,7 @@ func runWAL(w []byte, offset int64, s1, s2 uint32, maxBytes int64) (obs walObs) 
 	var rd *litestream.WALReader
 	var err error
 	if offset == 0 {
-		rd, err = litestream.NewWALReader(bytes.NewReader(w), quietLogger())
+		rd, err = litestream.NewWALReader(bytes.NewReader(w), QuietLogger())
 		if err != nil {
 			if errors.Is(err, io.EOF) {
 				return walObs{status: 1}
@@ -381,7 +382,7 @@ func runWAL(w []byte, offset int64, s1, s2 uint32, maxBytes int64) (obs walObs) 
 			return walObs{status: 2}
 		}
 	} else {
-		rd, err = litestream.NewWALReaderWithOffset(ctx, bytes.NewReader(w), offset, s1, s2, quietLogger())
+		rd, err = litestream.NewWALReaderWithOffset(ctx, bytes.NewReader(w), offset, s1, s2, QuietLogger())
 		if err != nil {
 			var pfm *litestream.PrevFrameMismatchError
 			if errors.As(err, &pfm) {
@@ -403,7 +404,7 @@ func runSalts(w []byte, u1, u2 uint32) (out Sx) {
 			out = L(I(9), L())
 		}
 	}()
-	rd, err := litestream.NewWALReader(bytes.NewReader(w), quietLogger())
+	rd, err := litestream.NewWALReader(bytes.NewReader(w), QuietLogger())
 	if err != nil {
 		if errors.Is(err, io.EOF) {
 			return L(I(1), L())
@@ -426,7 +427,7 @@ func runSalts(w []byte, u1, u2 uint32) (out Sx) {
 			}
 		}
 	}
-	l := make(sxList, 0, len(ps))
+	l := make(SxList, 0, len(ps))
 	for _, p := range ps {
 		l = append(l, L(U(uint64(p.a)), U(uint64(p.b))))
 	}
@@ -454,7 +455,7 @@ func emitWALCases(cw *CaseWriter, r *rand.Rand, w []byte, class string) {
 	if len(w) >= 32 {
 		hs1, hs2 = binary.BigEndian.Uint32(w[16:]), binary.BigEndian.Uint32(w[20:])
 	}
-	cw.Define("w", sxBytes(w))
+	cw.Define("w", SxBytes(w))
 	wb := Ref("w")
 	add := func(off int64, s1, s2 uint32, maxb int64, cls string) walObs {
 		o := runWAL(w, off, s1, s2, maxb)
@@ -463,8 +464,8 @@ func emitWALCases(cw *CaseWriter, r *rand.Rand, w []byte, class string) {
 	}
 	// whole file, no limit + the specification-level oracle on the same output
 	o := add(0, 0, 0, 0, class)
-	pairs := make(sxList, 0, len(o.m))
-	for _, k := range sortedKeysU32(o.m) {
+	pairs := make(SxList, 0, len(o.m))
+	for _, k := range SortedKeysU32(o.m) {
 		pairs = append(pairs, L(U(uint64(k)), I(o.m[k])))
 	}
 	cw.Add("wal_spec_ok", L(wb, I(int64(o.status)), pairs, I(o.end), U(uint64(o.commit))), I(1), class+"/spec", len(o.m) > 0)
@@ -505,15 +506,26 @@ func emitWALCases(cw *CaseWriter, r *rand.Rand, w []byte, class string) {
 	cw.Add("wal_salts", L(wb, U(uint64(u1)), U(uint64(u2))), runSalts(w, u1, u2), class+"/salts", nf > 0)
 }
 
+func main() {
+	if err := cmdWal(os.Args[1:]); err != nil {
+		fmt.Fprintln(os.Stderr, "harness error:", err)
+		os.Exit(3)
+	}
+}
+
 func cmdWal(args []string) error {
 	fl := flag.NewFlagSet("wal", flag.ContinueOnError)
 	out := fl.String("out", "", "work directory")
 	n := fl.Int("n", 300, "number of base WALs")
 	seed := fl.Int64("seed", 1, "PRNG seed")
+	replay := fl.String("replay", "", "case file whose inputs are re-run on the implementation")
 	if err := fl.Parse(args); err != nil {
 		return err
 	}
-	r := newRand(*seed)
+	if *replay != "" {
+		return replayWal(*replay, *out)
+	}
+	r := NewRand(*seed)
 	cw, err := NewCaseWriter(filepath.Join(*out, "cases.txt"))
 	if err != nil {
 		return err
@@ -554,5 +566,38 @@ func cmdWal(args []string) error {
 	if err := cw.Close(); err != nil {
 		return err
 	}
-	return writeJSON(filepath.Join(*out, "stats.json"), cw.Stats())
+	return WriteJSON(filepath.Join(*out, "stats.json"), cw.Stats())
+}
+
+// replayWal re-runs the implementation on the inputs of a case file and writes
+// a fresh case file (same inputs, newly observed outputs).
+func replayWal(path, out string) error {
+	cases, err := ReadCases(path)
+	if err != nil {
+		return err
+	}
+	cw, err := NewCaseWriter(filepath.Join(out, "cases.txt"))
+	if err != nil {
+		return err
+	}
+	for _, c := range cases {
+		w := c.In.At(0).AsBytes()
+		switch c.Entry {
+		case "wal_run":
+			off, s1, s2, mb := c.In.At(1).Int(), uint32(c.In.At(2).Uint()), uint32(c.In.At(3).Uint()), c.In.At(4).Int()
+			o := runWAL(w, off, s1, s2, mb)
+			cw.Add("wal_run", L(SxBytes(w), I(off), U(uint64(s1)), U(uint64(s2)), I(mb)), o.sx(), "replay", true)
+		case "wal_spec_ok":
+			o := runWAL(w, 0, 0, 0, 0)
+			pairs := make(SxList, 0, len(o.m))
+			for _, k := range SortedKeysU32(o.m) {
+				pairs = append(pairs, L(U(uint64(k)), I(o.m[k])))
+			}
+			cw.Add("wal_spec_ok", L(SxBytes(w), I(int64(o.status)), pairs, I(o.end), U(uint64(o.commit))), I(1), "replay", true)
+		case "wal_salts":
+			u1, u2 := uint32(c.In.At(1).Uint()), uint32(c.In.At(2).Uint())
+			cw.Add("wal_salts", L(SxBytes(w), U(uint64(u1)), U(uint64(u2))), runSalts(w, u1, u2), "replay", true)
+		}
+	}
+	return cw.Close()
 }
